@@ -752,7 +752,7 @@ Qed.
 Theorem config_roundtrip c now now' rnd b bs c1 s t c2 rnd2 :
   c_disabled c = false -> wf_state x509ok s ->
   set_session_ticket_keys c now (b :: bs) = Ok c1 ->
-  cfg_encrypt hmac ctr sha512 c1 now rnd s = Ok (t, c2, rnd2) ->
+  cfg_encrypt hmac ctr sha512 c1 now rnd s = Ok (Ok t, c2, rnd2) ->
   exists c3, cfg_decrypt hmac ctr sha512 x509ok c2 now' rnd2 t = Ok (Some s, c3, rnd2).
 Proof.
   intros Hd Hwf Hset Henc.
@@ -761,11 +761,11 @@ Proof.
   assert (D1 : c_disabled c1 = false) by (subst c1; exact Hd).
   unfold cfg_encrypt in Henc.
   destruct (Ticket.ticket_keys sha512 c1 now rnd) as [[[keys cA] rA]| |] eqn:TK; cbn [bind] in Henc; try discriminate.
-  apply bind_ok in Henc. destruct Henc as (st & Hst & Henc).
+  destruct (state_bytes s) as [st| |] eqn:Hst; try discriminate.
   destruct keys as [|k0 keys]; [discriminate|].
   destruct (take_rand ivLen rA) as [[iv rB]|] eqn:TR; [|discriminate].
-  apply bind_ok in Henc. destruct Henc as (t' & Ht & Henc). apply ok_inj in Henc.
-  assert (t' = t /\ cA = c2 /\ rB = rnd2) as (-> & -> & ->) by (repeat split; congruence).
+  assert (Ht : encrypt_ticket (k0 :: keys) iv st = Ok t) by congruence.
+  assert (cA = c2 /\ rB = rnd2) as (-> & ->) by (split; congruence).
   assert (Hiv : length iv = ivLen).
   { unfold take_rand in TR. destruct (ivLen <=? length rA)%nat eqn:E; [|discriminate].
     apply Nat.leb_le in E. assert (Eiv : iv = firstn ivLen rA) by congruence. rewrite Eiv. apply firstn_length_le. exact E. }
